@@ -69,6 +69,12 @@ def observe(net, L1, L2):
                 n1, n2 if len(lists) == 2 else n1)
         except Exception as ex:
             o["x"][name + "(c)"] = type(ex).__name__
+    # the sub-blocks of the link attribute itself, in list order
+    for name, lists in (("cross_link_attribute", (L1, L2)), ("internal_link_attribute", (L1,))):
+        try:
+            put(name + "(c)", getattr(net, name)("c", *[list(l) for l in lists]), n1, n2 if len(lists) == 2 else n1)
+        except Exception as ex:
+            o["x"][name + "(c)"] = type(ex).__name__
     return o
 
 
